@@ -42,6 +42,14 @@ theorem builtins_never_panic (fo : FOps) (name : String) (args : List Value) :
   have h := builtin_safe fo name args
   intro hc; rw [hc] at h; exact h
 
+/-- the pattern-expression operator evaluation (`eval_binary_op`) is total as well -/
+theorem pattern_binop_never_panics (op : BinOp) (l r : Value) :
+    patternBinop .fixed op l r ≠ .panic ∧ patternBinop .fixed op l r ≠ .diverge := by
+  have h : (patternBinop .fixed op l r).safe := by
+    unfold patternBinop
+    split <;> first | exact cmpVals_safe _ _ _ | (unfold cmpValsSameKind; split <;> simp) | simp
+  constructor <;> intro hc <;> rw [hc] at h <;> exact h
+
 /-! ### the defects of the unchanged tree, exhibited by the same model in `Mode.old` -/
 
 def evMax : Env := { etype := "E", fields := [("x", .int 9223372036854775807)] }
